@@ -37,6 +37,11 @@ def apply_rewrites(text, rewrites, log, where):
         if getattr(rw, "regex", False):
             rx = re.compile(rw.old, re.S)
             found = rx.findall(text)
+            if rw.count is None:
+                if found:
+                    text = rx.sub(rw.new, text)
+                    log.append({"item": where, "rule": rw.rule, "old_pattern": rw.old, "new_template": rw.new, "count": len(found), "why": rw.why})
+                continue
             if len(found) != rw.count:
                 raise Undecided("%s: rewrite pattern %r found %d times, expected %d" % (where, rw.old, len(found), rw.count))
             text = rx.sub(rw.new, text)
@@ -168,6 +173,76 @@ def name_return(sig, ret, where):
         ty = sig[ty_start:ty_end].strip()
         return sig[:toks[k].start] + "-> (" + ret + ": " + ty + ")\n" + sig[ty_end:]
     return sig
+
+
+def closure_spans(b):
+    """locate closures in a body: returns list of (start_of_params, end_of_params, body_start, body_end, is_block)"""
+    toks = rustlex.lex(b)
+    pairs = rustlex.match_brackets(toks)
+    closer = {}
+    for o, c in pairs.items():
+        closer[o] = c
+    # enclosing bracket close for each token index
+    res = []
+    i = 0
+    n = len(toks)
+    while i < n:
+        t = toks[i]
+        if t.kind == "punct" and t.text == "|":
+            prev = toks[i - 1] if i > 0 else None
+            starts = prev is None or (prev.kind == "punct" and prev.text in "(,=:{;[") or (prev.kind == "id" and prev.text in ("move", "return"))
+            if starts:
+                # params until next '|' at depth 0
+                j = i + 1
+                while j < n and not (toks[j].kind == "punct" and toks[j].text == "|"):
+                    if toks[j].text in rustlex.OPEN:
+                        j = pairs[j]
+                    j += 1
+                if j >= n:
+                    break
+                k = j + 1
+                # optional return type `-> T`
+                if k + 1 < n and toks[k].text == "-" and toks[k + 1].text == ">":
+                    while k < n and toks[k].text != "{":
+                        k += 1
+                if k < n and toks[k].text == "{":
+                    res.append((t.start, toks[j].end, toks[k].start, toks[pairs[k]].end, True))
+                    i = pairs[k] + 1
+                    continue
+                # expression body: until ',' or closing bracket at depth 0
+                m = k
+                while m < n:
+                    tt = toks[m].text
+                    if toks[m].kind == "punct" and tt in rustlex.OPEN:
+                        m = pairs[m] + 1
+                        continue
+                    if toks[m].kind == "punct" and (tt in rustlex.CLOSE or tt == "," or tt == ";"):
+                        break
+                    m += 1
+                res.append((t.start, toks[j].end, toks[k].start, toks[m - 1].end, False))
+                i = j + 1
+                continue
+        i += 1
+    return res
+
+
+def annotate_closures(b, closures, g, where):
+    spans = closure_spans(b)
+    for k in sorted(closures, reverse=True):
+        if k > len(spans):
+            raise Undecided("%s: closure #%d not found (function has %d closures)" % (where, k, len(spans)))
+        ps, pe, bs, be, is_block = spans[k - 1]
+        header, proof = closures[k]
+        body = b[bs:be]
+        if is_block:
+            inner = body[1:-1]
+        else:
+            inner = body
+        new = header + " { " + (proof + " " if proof else "") + inner + " }"
+        g.rewrites.append({"item": where, "rule": "R4", "closure": k, "old_header": b[ps:pe], "new_header": header, "proof": proof,
+                           "why": "closure header with types and spec; body kept verbatim" + ("" if is_block else ", wrapped in braces")})
+        b = b[:ps] + new + b[be:]
+    return b
 
 
 def desugar_for_ranges(b, ordinals, g, where):
@@ -312,6 +387,8 @@ def gen_fn(fn, g, probe_labels, unit_name):
     else:
         b = body
         b = apply_rewrites(b, fn.rewrites, g.rewrites, where)
+        if getattr(fn, "closures", None):
+            b = annotate_closures(b, fn.closures, g, where)
         if getattr(fn, "for_to_while", None):
             b = desugar_for_ranges(b, fn.for_to_while, g, where)
         # loops: insert contracts before the body brace of the k-th loop (ordinals w.r.t. the
